@@ -1,13 +1,14 @@
 import AffVerif.Proofs.SchemaLemmas
+import AffVerif.Proofs.ChainLemmas
 /-!
 # C17 — predefined trees equal their mathematical definitions everywhere
 
 For every dimension `n`, component `r < n`, parameter value and input of length `n` — breakpoints included,
 because the comparisons in `Spec.*` are the very comparisons that decide the label (`≤` routes to the closed
 side).  `Spec.onComp x r φ` replaces component `r` by `φ (x_r)` and leaves the others untouched.
-Proved here: the six per-neuron activations.  `argmax`, `class_characterization`, `inf_norm`, `from_poly` and
-`from_slice`/`remove_axes` are covered by the correspondence check with exact comparison of the generated trees
-against the model trees and of their values at breakpoints and ties; their theorems are listed as open in DESIGN.md.
+Proved here: the six per-neuron activations, `from_poly` (total and partial), `class_characterization`, `inf_norm`
+and the `argmax` tournament.  `from_slice`/`remove_axes` are covered by the correspondence check with exact
+comparison of the generated trees against the model trees and of their values at breakpoints and ties.
 -/
 set_option linter.unusedSectionVars false
 set_option linter.unusedVariables false
@@ -96,6 +97,245 @@ theorem C17_threshold (n r : Nat) (thr v : α) (x : List α) (hr : r < n) (hx : 
     simp only [h', h, if_true, Option.bind_some, eval_leaf, apply_setConst n r v x hx]
   · have h' : ¬ (1 * x.getD r 0 - thr ≤ 0) := by intro hc; apply h; linarith
     simp only [h', h, if_false, Option.bind_some, eval_leaf, apply_identity n x hx, set_getD_self]
+
+
+/-! ### chains of one-row decisions -/
+
+theorem oneRow_row (p : Aff α) (i : Nat) : OneRow (p.row i) := ⟨_, _, rfl, rfl⟩
+
+theorem mem_rows_iff (p : Aff α) (hwf : p.WF) (x : List α) :
+    (∀ r ∈ (List.range p.mat.length).map (fun i => p.row i), Poly.Mem r x) ↔ Poly.Mem p x := by
+  have hlen := hwf.2
+  constructor
+  · intro h rb hrb
+    unfold Aff.rows at hrb
+    obtain ⟨i, hi, hie⟩ := List.mem_iff_getElem.mp hrb
+    simp only [List.length_zip, hlen, min_self] at hi
+    have := h (p.row i) (List.mem_map.mpr ⟨i, List.mem_range.mpr hi, rfl⟩)
+    rw [oneRow_mem (p.row i) _ _ rfl rfl] at this
+    simp only [List.getElem_zip] at hie
+    rw [← hie]
+    simpa [List.getD_eq_getElem?_getD, hi, hlen ▸ hi] using this
+  · intro h r hr
+    obtain ⟨i, hi, rfl⟩ := List.mem_map.mp hr
+    have hi' := List.mem_range.mp hi
+    rw [oneRow_mem (p.row i) _ _ rfl rfl]
+    have hb : i < p.bias.length := by rw [hlen]; exact hi'
+    have : (p.mat[i], p.bias[i]) ∈ p.rows := by
+      unfold Aff.rows
+      exact List.mem_iff_getElem.mpr ⟨i, by simp [hi', hb], by simp⟩
+    have := h _ this
+    simpa [List.getD_eq_getElem?_getD, hi', hb] using this
+
+/-- `from_poly(P, f_true, f_false)`: `f_true` on the closed polytope, `f_false` (or undefined) outside -/
+theorem C17_from_poly (p fT : Aff α) (fF : Option (Aff α)) (hwf : p.WF) (x : List α) :
+    (Poly.Mem p x → PT.eval (Sch.fromPoly p fT fF) x = some (fT.apply x)) ∧
+    (¬ Poly.Mem p x → PT.eval (Sch.fromPoly p fT fF) x = fF.map (·.apply x)) := by
+  unfold Sch.fromPoly
+  have hiff := mem_rows_iff p hwf x
+  cases hrows : (List.range p.mat.length).map (fun i => p.row i) with
+  | nil =>
+    rw [hrows] at hiff
+    simp only
+    refine ⟨fun _ => eval_leaf _ _ _, fun hn => absurd (hiff.mp (by simp)) hn⟩
+  | cons r rs =>
+    rw [hrows] at hiff
+    simp only
+    have hone : ∀ q ∈ r :: rs, OneRow q := by
+      intro q hq
+      rw [← hrows] at hq
+      obtain ⟨i, _, rfl⟩ := List.mem_map.mp hq
+      exact oneRow_row p i
+    obtain ⟨h1, h0⟩ := eval_chainNode fF fT 0 r rs 1 x (hone r (by simp)) (fun q hq => hone q (by simp [hq]))
+    exact ⟨fun hm => h1 (hiff.mpr hm), fun hn => h0 (fun hall => hn (hiff.mp hall))⟩
+
+theorem mem_subtraction (n l r : Nat) (x : List α) (hl : l < n) (hr : r < n) (hlr : l ≠ r) :
+    Poly.Mem (Aff.subtraction n l r : Aff α) x ↔ x.getD l 0 ≤ x.getD r 0 := by
+  rw [oneRow_mem _ _ _ rfl rfl, dot_subtraction_row n l r x hl hr hlr]
+  constructor <;> intro h <;> linarith
+
+theorem all_getD (x : List α) (P : α → Bool) : x.all P = true ↔ ∀ i < x.length, P (x.getD i 0) = true := by
+  rw [List.all_eq_true]
+  constructor
+  · intro h i hi
+    have : x.getD i 0 = x[i] := by simp [List.getD_eq_getElem?_getD, hi]
+    rw [this]; exact h _ (List.getElem_mem hi)
+  · intro h v hv
+    obtain ⟨i, hi, rfl⟩ := List.mem_iff_getElem.mp hv
+    have := h i hi
+    simpa [List.getD_eq_getElem?_getD, hi] using this
+
+/-- a chain that ends in the constant `1` where every row holds and in the constant `0` elsewhere -/
+theorem eval_indicatorChain (n : Nat) (rows : List (Aff α)) (x : List α) (P : Bool)
+    (hone : ∀ q ∈ rows, OneRow q) (hall : (∀ r ∈ rows, Poly.Mem r x) ↔ P = true) :
+    PT.eval (match rows with
+      | [] => Sch.leaf 0 (Aff.constant n 1)
+      | r :: rs => Sch.chainNode (some (Aff.constant n (0 : α))) (Aff.constant n 1) 0 r rs 1) x =
+      some [if P then 1 else 0] := by
+  cases rows with
+  | nil =>
+    simp only
+    rw [eval_leaf, apply_constant, hall.mp (by simp)]
+    simp
+  | cons r rs =>
+    simp only
+    obtain ⟨h1, h0⟩ := eval_chainNode (some (Aff.constant n (0 : α))) (Aff.constant n 1) 0 r rs 1 x
+      (hone r (by simp)) (fun q hq => hone q (by simp [hq]))
+    by_cases hm : P = true
+    · rw [h1 (hall.mpr hm), apply_constant, hm]; simp
+    · rw [h0 (fun h => hm (hall.mp h))]
+      simp only [Option.map_some, apply_constant]
+      have : P = false := by simpa using hm
+      rw [this]; simp
+
+/-- `class_characterization(dim, c)`: `1` where component `c` is maximal (ties included), `0` elsewhere -/
+theorem C17_class_char (n c : Nat) (x : List α) (hc : c < n) (hx : x.length = n) :
+    PT.eval (Sch.classChar n c : PT α) x = some [if Spec.isMax x c then 1 else 0] := by
+  unfold Sch.classChar
+  have hall : (∀ r ∈ ((List.range n).filter (· ≠ c)).map (fun i => (Aff.subtraction n i c : Aff α)), Poly.Mem r x) ↔
+      Spec.isMax x c = true := by
+    unfold Spec.isMax
+    rw [all_getD, hx]
+    constructor
+    · intro h i hi
+      by_cases hic : i = c
+      · subst hic; simp
+      · have := h (Aff.subtraction n i c) (List.mem_map.mpr ⟨i, by simp [hi, hic], rfl⟩)
+        simpa using (mem_subtraction n i c x hi hc hic).mp this
+    · intro h r hr
+      obtain ⟨i, hi, rfl⟩ := List.mem_map.mp hr
+      simp only [List.mem_filter, List.mem_range, decide_eq_true_eq] at hi
+      rw [mem_subtraction n i c x hi.1 hc hi.2]
+      simpa using h i hi.1
+  have hone : ∀ q ∈ ((List.range n).filter (· ≠ c)).map (fun i => (Aff.subtraction n i c : Aff α)), OneRow q := by
+    intro q hq
+    obtain ⟨i, _, rfl⟩ := List.mem_map.mp hq
+    exact ⟨_, _, rfl, rfl⟩
+  exact eval_indicatorChain n _ x _ hone hall
+
+theorem mem_axisPred (n i : Nat) (c b : α) (x : List α) (hi : i < n) :
+    Poly.Mem (Sch.axisPred n i c b : Aff α) x ↔ c * x.getD i 0 ≤ b := by
+  rw [oneRow_mem _ _ _ rfl rfl, dot_unitVec]
+  simp [hi]
+
+/-- `inf_norm(dim, min, max)`: `1` inside the box (closed), `0` outside -/
+theorem C17_inf_norm (n : Nat) (lo hi : Option α) (x : List α) (hx : x.length = n) :
+    PT.eval (Sch.infNorm n lo hi : PT α) x = some [if Spec.inBounds x lo hi then 1 else 0] := by
+  unfold Sch.infNorm
+  simp only
+  apply eval_indicatorChain
+  · intro q hq
+    rcases List.mem_append.mp hq with hq | hq
+    · cases lo with
+      | none => simp at hq
+      | some l => obtain ⟨i, _, rfl⟩ := List.mem_map.mp hq; exact ⟨_, _, rfl, rfl⟩
+    · cases hi with
+      | none => simp at hq
+      | some u => obtain ⟨i, _, rfl⟩ := List.mem_map.mp hq; exact ⟨_, _, rfl, rfl⟩
+  · unfold Spec.inBounds
+    rw [all_getD, hx]
+    constructor
+    · intro h i hi'
+      simp only [Bool.and_eq_true]
+      constructor
+      · cases lo with
+        | none => rfl
+        | some l =>
+          have := h (Sch.axisPred n i (-1) (-l)) (List.mem_append_left _ (List.mem_map.mpr ⟨i, List.mem_range.mpr hi', rfl⟩))
+          rw [mem_axisPred n i _ _ x hi'] at this
+          simp only [decide_eq_true_eq]; linarith
+      · cases hi with
+        | none => rfl
+        | some u =>
+          have := h (Sch.axisPred n i 1 u) (List.mem_append_right _ (List.mem_map.mpr ⟨i, List.mem_range.mpr hi', rfl⟩))
+          rw [mem_axisPred n i _ _ x hi'] at this
+          simp only [decide_eq_true_eq]; linarith
+    · intro h r hr
+      rcases List.mem_append.mp hr with hr | hr
+      · cases lo with
+        | none => simp at hr
+        | some l =>
+          obtain ⟨i, hi', rfl⟩ := List.mem_map.mp hr
+          have hi'' := List.mem_range.mp hi'
+          rw [mem_axisPred n i _ _ x hi'']
+          have := (h i hi'')
+          simp only [Bool.and_eq_true, decide_eq_true_eq] at this
+          linarith [this.1]
+      · cases hi with
+        | none => simp at hr
+        | some u =>
+          obtain ⟨i, hi', rfl⟩ := List.mem_map.mp hr
+          have hi'' := List.mem_range.mp hi'
+          rw [mem_axisPred n i _ _ x hi'']
+          have := (h i hi'')
+          simp only [Bool.and_eq_true, decide_eq_true_eq] at this
+          linarith [this.2]
+
+/-! ### the `argmax` tournament -/
+
+theorem drop_eq_getD_cons (x : List α) (k : Nat) (hk : k < x.length) : x.drop k = x.getD k 0 :: x.drop (k+1) := by
+  rw [List.drop_eq_getElem_cons hk]
+  simp [List.getD_eq_getElem?_getD, hk]
+
+theorem eval_argmaxLeafPair (n : Nat) (ofNat : Nat → α) (idx mf mt c : Nat) (x : List α) (hx : x.length = n)
+    (hlt : mt < mf) (hmf : mf < n) :
+    PT.eval (Sch.dec idx (Aff.subtraction n mf mt) (some (Sch.leaf c (Aff.constant n (ofNat mf))))
+      (some (Sch.leaf (c+1) (Aff.constant n (ofNat mt))))) x =
+      some [ofNat (if x.getD mf 0 ≤ x.getD mt 0 then mt else mf)] := by
+  rw [eval_dec _ _ _ _ x (by simp)]
+  obtain ⟨l1, l0⟩ := oneRow_label (Aff.subtraction n mf mt : Aff α) ⟨_, _, rfl, rfl⟩ x
+  have hmem := mem_subtraction n mf mt x hmf (by omega) (by omega)
+  by_cases h : x.getD mf 0 ≤ x.getD mt 0
+  · rw [l1 (hmem.mpr h), if_pos h]; simp [eval_leaf, apply_constant]
+  · rw [l0 (fun hm => h (hmem.mp hm)), if_neg h]; simp [eval_leaf, apply_constant]
+
+/-- the node that compares component `mf` with the current maximiser `mt` computes the arg-max of the remaining
+    components `mf, mf+1, …` against `mt` — first maximiser wins ties, as in `Spec.argmax` -/
+theorem eval_argmaxNode (n : Nat) (ofNat : Nat → α) (x : List α) (hx : x.length = n) :
+    ∀ (fuel idx mf mt c : Nat), mt < mf → mf < n → n ≤ mf + 1 + fuel →
+      PT.eval (Sch.argmaxNode n ofNat fuel idx (Aff.subtraction n mf mt) mf mt c).1 x =
+        some [ofNat (Spec.argmaxFrom (x.drop mf) mf mt (x.getD mt 0))] := by
+  intro fuel
+  induction fuel with
+  | zero =>
+    intro idx mf mt c hlt hmf hn
+    have hlast : mf + 1 = n := by omega
+    simp only [Sch.argmaxNode]
+    rw [eval_argmaxLeafPair n ofNat idx mf mt c x hx hlt hmf, drop_eq_getD_cons x mf (by omega)]
+    have : x.drop (mf+1) = [] := List.drop_eq_nil_of_le (by omega)
+    rw [this]
+    simp only [Spec.argmaxFrom]
+  | succ fuel ih =>
+    intro idx mf mt c hlt hmf hn
+    simp only [Sch.argmaxNode]
+    split
+    · rename_i hmore
+      rw [eval_dec _ _ _ _ x (by simp)]
+      obtain ⟨l1, l0⟩ := oneRow_label (Aff.subtraction n mf mt : Aff α) ⟨_, _, rfl, rfl⟩ x
+      have hmem := mem_subtraction n mf mt x hmf (by omega) (by omega)
+      rw [drop_eq_getD_cons x mf (by omega)]
+      simp only [Spec.argmaxFrom]
+      by_cases h : x.getD mf 0 ≤ x.getD mt 0
+      · rw [l1 (hmem.mpr h), if_pos h]
+        simp only [Option.bind_some]
+        exact ih (c+1) (mf+1) mt (c+2) (by omega) hmore (by omega)
+      · rw [l0 (fun hm => h (hmem.mp hm)), if_neg h]
+        simp only [Option.bind_some]
+        exact ih c (mf+1) mf _ (by omega) hmore (by omega)
+    · rename_i hlast
+      rw [eval_argmaxLeafPair n ofNat idx mf mt c x hx hlt hmf, drop_eq_getD_cons x mf (by omega)]
+      have : x.drop (mf+1) = [] := List.drop_eq_nil_of_le (by omega)
+      rw [this]
+      simp only [Spec.argmaxFrom]
+
+/-- `argmax(dim)`: the index of the first maximal component, as a one-component vector -/
+theorem C17_argmax (n : Nat) (ofNat : Nat → α) (x : List α) (hn : 2 ≤ n) (hx : x.length = n) :
+    PT.eval (Sch.argmax n ofNat) x = some [ofNat (Spec.argmax x)] := by
+  unfold Sch.argmax
+  rw [eval_argmaxNode n ofNat x hx n 0 1 0 1 (by omega) (by omega) (by omega)]
+  cases x with
+  | nil => simp at hx; omega
+  | cons v vs => simp [Spec.argmax]
 
 /-! non-vacuity: ReLU on the second of three components, at the breakpoint and on both sides -/
 example : PT.eval (Sch.partialReLU 3 1 : PT Rat) [5, 0, -2] = some [5, 0, -2] := by decide +kernel
